@@ -98,9 +98,24 @@ func (c LimitCfg) effectiveQueue() func(int) int {
 type rttNoLoader interface{ RTTNoLoad() int64 }
 
 // built is a constructed limit: Outer is what samples are fed to, Inner the algorithm itself.
+// When wrappers are configured a recording pass-through (Tap) sits between them and the algorithm.
 type built struct {
 	Outer core.Limit
 	Inner core.Limit
+	Tap   *tapLimit
+}
+
+// tapLimit forwards everything to the wrapped limit and records the samples it was given.
+type tapLimit struct {
+	inner core.Limit
+	Got   []Sample
+}
+
+func (t *tapLimit) EstimatedLimit() int                       { return t.inner.EstimatedLimit() }
+func (t *tapLimit) NotifyOnChange(c core.LimitChangeListener) { t.inner.NotifyOnChange(c) }
+func (t *tapLimit) OnSample(start, rtt int64, inf int, drop bool) {
+	t.Got = append(t.Got, Sample{Start: start, RTT: rtt, Inf: inf, Drop: drop})
+	t.inner.OnSample(start, rtt, inf, drop)
 }
 
 // buildLimit constructs the configured limit. The library's global jitter source is re-seeded
@@ -129,6 +144,11 @@ func buildLimit(c LimitCfg, reg core.MetricRegistry) built {
 		panic("algo " + c.Algo)
 	}
 	outer := inner
+	var tap *tapLimit
+	if c.Windowed || c.Traced {
+		tap = &tapLimit{inner: inner}
+		outer = tap
+	}
 	if c.Windowed {
 		w, err := limit.NewWindowedLimit("w", c.WinMin, c.WinMax, c.WinSize, c.WinThreshold, outer, nil)
 		if err != nil {
@@ -139,7 +159,7 @@ func buildLimit(c LimitCfg, reg core.MetricRegistry) built {
 	if c.Traced {
 		outer = limit.NewTracedLimit(outer, limit.NoopLimitLogger{})
 	}
-	return built{Outer: outer, Inner: inner}
+	return built{Outer: outer, Inner: inner, Tap: tap}
 }
 
 func (b built) noLoad() (int64, bool) {
